@@ -183,7 +183,14 @@ def REAL(relpath, qualname):
             v = it.getattr(v, part)
 
         def run(*args, **kwargs):
-            return it.call(v, list(args), kwargs)
+            from .values import FuncVal as _FV
+            prev = (getattr(CTX, "target_key", None), getattr(CTX, "target_depth", 0))
+            if isinstance(v, _FV):
+                CTX.target_key, CTX.target_depth = it.func_key(v), 0
+            try:
+                return it.call(v, list(args), kwargs)
+            finally:
+                CTX.target_key, CTX.target_depth = prev
 
         run.val = v
         return run
